@@ -248,7 +248,19 @@ def _run_transpose(cfg, ctx):
             for i_ in range(ni):
                 exp |= ((val >> offL[o_][i_]) & ((1 << lw[o_][i_]) - 1)) << offT[i_][o_]
         run = lambda: (lambda tc: (tc.shape(), tc.as_bits()))(DATA.transpose(c))
-        got = run()
+        try:
+            got = run()
+        except Exception as e:  # the real transpose() raises on a Const of a layout it accepts as a View: a violation
+            try:
+                run()
+                again = None
+            except Exception as e2:  # noqa
+                again = e2
+            if again is not None and type(again) is type(e):
+                ctx.violation(f"transpose(Const) raises for {desc}", f"value {val:#x}: {type(e).__name__}: {str(e)[:160]}", "re-executed concretely, raises again")
+            else:
+                ctx.errors.append(f"transpose(Const) raised non-deterministically for {desc}: {e!r}")
+            break
         ctx.notes["transpose_const_samples"] = ctx.notes.get("transpose_const_samples", 0) + 1
         if got != (expT, exp) and run() == got:
             ctx.violation(f"transpose(Const) for {desc}", f"value {val:#x}: got {got[1]:#x} over {got[0]!r}, expected {exp:#x}", "re-executed concretely")
